@@ -279,6 +279,13 @@ class BundleFlattener(ElabPass):
                 self.fail(msg)
             inst.connect(flat_port.name, flat.signals[path])
 
+        # And check that nothing is connected which the port does not have
+        extra = [path for path in flat.signals if path not in flat_bundle_port.signals]
+        if extra:
+            msg = f"Invalid connection to `{portname}` on Instance `{inst.name}`: "
+            msg += f"has `{extra}`, which are not in the port's Bundle. "
+            self.fail(msg)
+
     def flatten_bundle_inst(
         self, bundle_inst: BundleInstance, path: Path
     ) -> BundleScope:
